@@ -47,6 +47,20 @@ pub type c_uint_fast32_t = u32;
     target_arch = "wasm32"
 )))]
 pub type c_uint_fast32_t = usize;
+#[cfg(any(
+    target_os = "macos",
+    target_os = "ios",
+    target_os = "windows",
+    target_arch = "wasm32"
+))]
+pub type c_int_fast32_t = i32;
+#[cfg(not(any(
+    target_os = "macos",
+    target_os = "ios",
+    target_os = "windows",
+    target_arch = "wasm32"
+)))]
+pub type c_int_fast32_t = isize;
 #[cfg(target_pointer_width = "64")]
 pub type c_uint_fast64_t = usize;
 #[cfg(not(target_pointer_width = "64"))]
